@@ -98,7 +98,6 @@ RECURSIVE EndsWithName(_)
 EndsWithName(x) == /\ x.k = "cmd" /\ x.body = <<>> /\ ~IsSizeCmd(x)
                    /\ (x.args = <<>> \/ EndsWithName(x.args[Len(x.args)]))
 NoHead == T(<<"#">>)
-EnvHead == Cmd(<<"h">>, << Grp("{", <<>>, <<>>) >>)           \* stands for "\begin{name}" + arguments
 Anchor(hd, its) ==
   IF its = <<>> THEN hd
   ELSE IF IsTextNode(Last(its)) /\ IsAttachWs(Last(its).s)
@@ -109,12 +108,23 @@ RECURSIVE TrailBs(_)
 TrailBs(s) == IF s # <<>> /\ s[Len(s)] = "\\" THEN 1 + TrailBs(SubSeq(s, 1, Len(s)-1)) ELSE 0
 LoneBackslashEnd(s) == TrailBs(s) % 2 = 1
 HasTopBracketClose(x) == x.k = "text" /\ \E i \in 1..Len(x.s) : x.s[i] = "]" /\ (i = 1 \/ x.s[i-1] # "\\")
+EnvHead == Cmd(<<"h">>, << Grp("{", <<>>, <<>>) >>)           \* stands for "\begin{name}" + arguments
+(* a text that starts with attaching whitespace: what counts for attachment is the first character after that prefix *)
+RECURSIVE AttachPrefixLen(_, _)
+AttachPrefixLen(s, k) == IF k < Len(s) /\ IsAttachWs(SubSeq(s, 1, k + 1)) THEN AttachPrefixLen(s, k + 1) ELSE k
+EffFirst(new) == IF IsTextNode(new) THEN (LET k == AttachPrefixLen(new.s, 0) IN IF k < Len(new.s) THEN new.s[k + 1] ELSE "")
+                 ELSE First(Src(new))
+(* after at least one brace group the run "bracket groups, then brace groups" is over for a bracket that does not follow  *)
+(* immediately: '\a{x} [b]' leaves ' [b]' in the text (while '\a{x}[b]' and '\a [b]' attach)                              *)
+DetachedBracket(anchor, new) == /\ IsTextNode(new) /\ AttachPrefixLen(new.s, 0) > 0 /\ EffFirst(new) = "["
+                                /\ anchor.k = "cmd" /\ anchor # EnvHead /\ anchor.name \notin SigNames /\ NKind(anchor.args, "{") > 0
 CanFollow(fr, new) ==
   LET its == fr.items
       nf == First(Src(new))
+      ef == EffFirst(new)
       anchor == Anchor(fr.hd, its)
       prev == IF its = <<>> THEN fr.hd ELSE Last(its)
-  IN /\ ~(nf \in {"{", "["} /\ IsHeadFor(anchor, nf))                                              \* G1
+  IN /\ ~(ef \in {"{", "["} /\ IsHeadFor(anchor, ef) /\ ~DetachedBracket(anchor, new))            \* G1
      /\ ~(EndsWithName(prev) /\ (nf \in Letters \/ nf = "*"))                                     \* G2
      /\ ~(fr.ck = "arg" /\ fr.kind = "[" /\ HasTopBracketClose(new))                              \* G3
      /\ ~(IsTextNode(prev) /\ IsTextNode(new) /\ its # <<>>)                                      \* G8
